@@ -340,9 +340,58 @@ def rule_m4(ctx) -> None:
     m2 = prog.func("synrbl.SynMCSImputer.utils.merge_two_mols")
     src = unparse(m2.node)
     ok3 = "CombineMols(%s, %s)" % (m2.params[0], m2.params[1]) in src and src.count(".AddBond(") == 1 and not deleter_sites(m2)
+    # the second molecule's atoms sit behind ALL atoms of the first one
+    off_ok = False
+    for n in own_nodes(m2.node):
+        if isinstance(n, ast.Assign) and isinstance(n.targets[0], ast.Name) and "offset" in n.targets[0].id:
+            t = unparse(n.value)
+            off_ok = t in ("len(%s.GetAtoms())" % m2.params[0], "%s.GetNumAtoms()" % m2.params[0])
+            ctx.instance("C09-M4", "merge_two_mols: offset of the second molecule = %s" % t, m2.loc(n), ok=off_ok)
+            if not off_ok:
+                ctx.finding("C09-M4", "utils.merge_two_mols:offset", m2.loc(n), "the index offset of the second molecule is %s, not the number of atoms of the first molecule: with explicit hydrogen atoms in the graph the new bond lands on the wrong atom" % t)
     ctx.instance("C09-M4", "merge_two_mols = CombineMols(mol1, mol2) + one AddBond", m2.loc(), ok=ok3)
     if not ok3:
         ctx.finding("C09-M4", "utils.merge_two_mols:combine", m2.loc(), "merge_two_mols is no longer CombineMols of both molecules plus a single new bond")
+
+
+def rule_m5(ctx) -> None:
+    """No loop of the merge machinery iterates the live compound list while
+    its body (transitively) adds to or removes from that list."""
+    ctx.rule("C09-M5", "the live compound list is not mutated while it is iterated", 1)
+    prog = ctx.prog
+    cs = prog.cls("synrbl.SynMCSImputer.structure.CompoundSet")
+    # properties / methods that hand out the internal list itself
+    live = set()
+    for m in cs.methods.values():
+        rets = [n for n in own_nodes(m.node) if isinstance(n, ast.Return) and n.value is not None]
+        if rets and all(isinstance(r.value, ast.Attribute) and isinstance(r.value.value, ast.Name) and r.value.value.id == m.params[0] for r in rets):
+            live.add(m.name)
+    mutators = {m.qualname for m in cs.methods.values() if any(isinstance(n, ast.Call) and isinstance(n.func, ast.Attribute) and n.func.attr in ("remove", "append", "pop", "insert", "clear", "extend") and isinstance(n.func.value, ast.Attribute) for n in own_nodes(m.node))}
+    ctx.require(live and mutators, "CompoundSet no longer exposes its list / mutators (%s / %s)" % (live, mutators))
+    reach = ctx.res.reachable([MERGE], ctx.graph)
+    n = 0
+    for q in sorted(reach):
+        f = prog.functions.get(q)
+        if f is None or f.module.name not in MACHINERY:
+            continue
+        for loop in [x for x in own_nodes(f.node) if isinstance(x, ast.For)]:
+            it = loop.iter
+            if not (isinstance(it, ast.Attribute) and it.attr in live):
+                continue
+            n += 1
+            reached = set()
+            for c in [y for y in ast.walk(loop) if isinstance(y, ast.Call)]:
+                tgt = ctx.res.resolve_callee(c, f)
+                if tgt and tgt[0] == "func":
+                    reached |= ctx.res.reachable([tgt[1]], ctx.graph)
+                elif tgt and tgt[0] == "method":
+                    for mm in ctx.res.methods_named(tgt[1]):
+                        reached |= ctx.res.reachable([mm.qualname], ctx.graph)
+            bad = sorted(reached & mutators)
+            ctx.instance("C09-M5", "%s: loop over %s; body reaches list mutators: %s" % (f.name, unparse(it), bad or "none"), f.loc(loop), ok=not bad)
+            if bad:
+                ctx.finding("C09-M5", "%s:mutates-iterated-list" % q.split("synrbl.", 1)[-1], f.loc(loop), "the loop iterates the live list %s while its body reaches %s: the iterator skips the element after every removal, so compounds silently drop out of the merged product" % (unparse(it), ", ".join(b.split(".")[-1] for b in bad)))
+    ctx.require(n >= 1, "no loop over the live compound list found in the merge machinery")
 
 
 def check(ctx) -> None:
@@ -350,3 +399,4 @@ def check(ctx) -> None:
     rule_m2(ctx)
     rule_m3(ctx)
     rule_m4(ctx)
+    rule_m5(ctx)
